@@ -38,7 +38,7 @@ def plan(tier, work, stats, rng):
         inputs.append(("gram/%d" % (i % 3), R.render(t, i % 3)))
     # deeper programs with two mutations by seeded simulation
     sim = R.proggen(work, "grammar", stats, stmts=5, depth=3, mut=2,
-                    simulate="num=%d" % nsim, extra=["-depth", "16", "-seed", str(C.seed())])
+                    simulate="num=%d" % nsim, extra=["-depth", "16", "-seed", str(C.tier_seed(tier))])
     sim = [t for t in sim if len(t) > 8]
     for i, t in enumerate(rng.sample(sim, min(ksim, len(sim)))):
         inputs.append(("sim/%d" % (i % 3), R.render(t, i % 3)))
@@ -87,14 +87,12 @@ def judge(prop, res, args):
 
 
 def badline_key(prev, ln):
-    """A line outside the grammar is almost always the tail of a record or message that
-    contains a raw newline; name it by what was cut."""
+    """A line outside the grammar right after a well-formed line is the tail of a message, hint
+    or record that contains a raw newline (a newline token taken as a name); name it so."""
     if ln["msg"] == "%" or (prev is not None and prev["kind"] in "sxa"):
-        return "badline:newline-in-record"
-    if prev is not None and prev["kind"] in "dh" and prev["msg"].endswith("'") and ln["msg"].startswith("'"):
-        return "badline:newline-as-method-name-in-message"
+        return "badline:newline-token-used-as-name-in-record"
     if prev is not None and prev["kind"] in "dh":
-        return "badline:newline-in-message-after:" + line_shape(prev["msg"])
+        return "badline:newline-token-used-as-name"
     return "badline:" + line_shape(ln["msg"])
 
 
@@ -110,7 +108,7 @@ def line_shape(msg):
 
 def run(prop, tier, work):
     v = C.Verdict(prop, tier, work)
-    rng = C.rng(1)
+    rng = C.tier_rng(tier, 1)
     stats = dict(states=0, transitions=0, traces=0, trace_events=0)
     # the life-cycle model itself
     r = C.run_tlc(work, "MCRun", "Run_mc.cfg", workers=4, timeout=600)
